@@ -116,13 +116,21 @@ def concrete_check(item, args: dict) -> dict:
 def real_replay(item, args: dict) -> dict:
     if item.replay is None:
         return {"available": False}
-    try:
-        r = item.replay(dict(args))
-    except Exception as e:  # noqa: BLE001
-        return {"available": True, "reproduced": False, "error": f"{type(e).__name__}: {e}", "traceback": traceback.format_exc()[-3000:]}
-    if r:
-        return {"available": True, "reproduced": True, "detail": str(r)}
-    return {"available": True, "reproduced": False}
+    # Real-thread replays (coop) are timing-sensitive: a replay that does not reproduce is retried a
+    # couple of times before the counterexample is called "not reproduced".  (Retrying can only turn
+    # a non-reproduction into a reproduction on the real code, never the other way round.)
+    attempts = 3 if str(getattr(item, "engine", "")).startswith("coop") else 1
+    last: dict = {"available": True, "reproduced": False}
+    for k in range(attempts):
+        try:
+            r = item.replay(dict(args))
+        except Exception as e:  # noqa: BLE001
+            last = {"available": True, "reproduced": False, "error": f"{type(e).__name__}: {e}", "traceback": traceback.format_exc()[-3000:], "attempts": k + 1}
+            continue
+        if r:
+            return {"available": True, "reproduced": True, "detail": str(r), "attempts": k + 1}
+        last = {"available": True, "reproduced": False, "attempts": k + 1}
+    return last
 
 
 # ---------------------------------------------------------------------------
